@@ -230,7 +230,37 @@ def compile_trees(trees, backend='json', genTexts=False, textFilter=None, order=
         r.info[mi.name] = mi
         r.ctx[mi.name] = ctx
     r.codegen = cg
+    if EXEC is not None and backend in ('json', 'pysnmp'):
+        _exec_hook(trees, idx, extra_symtab, genTexts, textFilter)
     return r
+
+
+# ---- engine EXEC hook: the same trees through the real template / CPython / pysnmp, concretely, once per path --------
+EXEC = None
+
+
+def _exec_hook(trees, idx, extra_symtab, genTexts, textFilter):
+    from harness import execpy
+    st = EXEC
+    try:
+        from crosshair.tracers import is_tracing
+        from crosshair.core import deep_realize
+        if is_tracing():
+            trees = deep_realize(trees)                 # pool-restricted symbolic leaves: every pool value is enumerated
+            extra_symtab = deep_realize(extra_symtab) if extra_symtab else extra_symtab
+            genTexts = bool(deep_realize(genTexts))
+    except ImportError:
+        pass
+    mine = [trees[i] for i in idx]
+    have = set(t[0] for t in mine)
+    deps = [CONST_MODTREES[n] for n in (extra_symtab or {}) if n in CONST_MODTREES and n not in have]
+    d = execpy.differences_trees(deps + mine, extra_symtab, genTexts=genTexts, textFilter=textFilter,
+                                 aspects=st.get('aspects', execpy.ALL_ASPECTS), modules=have)
+    if d is None:
+        st['skipped'] = st.get('skipped', 0) + 1
+    else:
+        st['runs'] = st.get('runs', 0) + 1
+        st['diffs'].extend(d)
 
 
 def numeric_oid(symtab, module, name):
@@ -253,6 +283,7 @@ def const_trees(key, build, dialect='smiV2'):
 
 
 _CONST_SYMTAB = {}
+CONST_MODTREES = {}
 
 
 def const_symtab(key, build, dialect='smiV2'):
@@ -261,6 +292,9 @@ def const_symtab(key, build, dialect='smiV2'):
     import copy
     with _untraced():
         if key not in _CONST_SYMTAB:
-            r = compile_trees(parse_tokens(build(), dialect), backend=None)
+            trees = parse_tokens(build(), dialect)
+            for t in trees:
+                CONST_MODTREES[t[0]] = copy.deepcopy(t)     # engine EXEC generates and loads these dependencies too
+            r = compile_trees(trees, backend=None)
             _CONST_SYMTAB[key] = r.symtab
         return copy.deepcopy(_CONST_SYMTAB[key])
